@@ -84,6 +84,9 @@ def parse_type(s: str):
         if h == "Dict":
             k = atom(); v = atom()
             return ("Dict", k, v)
+        if h == "DDict":                      # collections.defaultdict(list): reading a missing key inserts []
+            k = atom(); v = atom()
+            return ("DDict", k, v)
         return h
 
     def prod():
@@ -106,7 +109,7 @@ def show_type(t) -> str:
         return f"(List {show_type(t[1])})"
     if t[0] == "Option":
         return f"(Option {show_type(t[1])})"
-    if t[0] == "Dict":
+    if t[0] in ("Dict", "DDict"):
         return f"(Py.Dict {show_type(t[1])} {show_type(t[2])})"
     if t[0] == "Prod":
         return f"({show_type(t[1])} × {show_type(t[2])})"
@@ -444,6 +447,12 @@ class FnTr:
         if isinstance(ta, tuple) and ta[0] == "Dict" and ti == ta[1]:
             n = self.bindname()
             return s1 + s2 + [f"Py.bind (Py.Dict.get? {a} {i}) fun {n} =>"], n, ta[2]
+        if isinstance(ta, tuple) and ta[0] == "DDict" and ti == ta[1] and isinstance(e.value, ast.Name):
+            # defaultdict(list): `d[k]` inserts `[]` under a missing key, then reads
+            nm = lname(e.value.id)
+            n = self.bindname()
+            return (s1 + s2 + [f"let {n} := {i}; let v := {{ v with {nm} := Py.Dict.setdefault v.{nm} {n} [] }};"],
+                    f"(Py.Dict.getD v.{nm} {n} [])", ta[2])
         raise Untranslatable(f"{self.spec.lean}: subscript `{ast.unparse(e)}` on {ta} with {ti}")
 
     def e_ListComp(self, e, want):
@@ -493,7 +502,7 @@ class FnTr:
     def elem_type(self, t):
         if isinstance(t, tuple) and t[0] == "List":
             return t[1]
-        if isinstance(t, tuple) and t[0] == "Dict":
+        if isinstance(t, tuple) and t[0] in ("Dict", "DDict"):
             return t[1]
         raise Untranslatable(f"iteration over {t}")
 
@@ -594,9 +603,13 @@ class FnTr:
             if not isinstance(want, tuple):
                 raise Untranslatable(f"{self.spec.lean}: `{ast.unparse(e)}` of unknown type")
             return [], f"([] : {show_type(want)})", want
+        if f == "defaultdict" and len(args) == 1 and ast.unparse(args[0]) == "list":
+            if not (isinstance(want, tuple) and want[0] == "DDict"):
+                raise Untranslatable(f"{self.spec.lean}: defaultdict(list) of unknown type")
+            return [], f"([] : {show_type(want)})", want
         if f == "len" and len(args) == 1:
             s, c, t = self.tr(args[0])
-            if isinstance(t, tuple) and t[0] in ("List", "Dict"):
+            if isinstance(t, tuple) and t[0] in ("List", "Dict", "DDict"):
                 return s, f"(Py.len {c})", "Int"
         if f == "range" and len(args) == 1:
             s, c, t = self.tr(args[0])
@@ -674,7 +687,7 @@ class FnTr:
                     return s0 + s1 + s2, f"(Py.Dict.getD {d} {k} {dv})", td[2]
             if meth == "items" and not args:
                 s0, d, td = self.tr(recv)
-                if isinstance(td, tuple) and td[0] == "Dict":
+                if isinstance(td, tuple) and td[0] in ("Dict", "DDict"):
                     return s0, d, ("List", ("Prod", td[1], td[2]))
             if meth == "pop":
                 # stateful: receiver must be a variable
@@ -792,7 +805,7 @@ class FnTr:
                 x = self.coerce(x, tx, ta[1])
                 # the container is re-read after the right-hand side was evaluated (it may have been updated by a call)
                 return self.chain(s1 + s2 + [f"Py.bind (Py.setIdx {self.reread(tgt.value)} {i} {x}) fun {n} =>"], ".next " + lv(n))
-            if ta[0] == "Dict":
+            if ta[0] in ("Dict", "DDict"):
                 x = self.coerce(x, tx, ta[2])
                 return self.chain(s1 + s2, ".next " + lv(f"(Py.Dict.set {self.reread(tgt.value)} {i} {x})"))
         raise Untranslatable(f"{self.spec.lean}: assignment `{ast.unparse(s)}`")
@@ -1102,6 +1115,17 @@ spec(lean="has_cyclic", module="AlgoCheckers", file="swcgeom/core/swc_utils/chec
      params=["topology"],
      vars={"topology": "(List Int) × (List Int)", "node_num": "Int", "dsu": "DisjointSetUnion", "i": "Int", "node_a": "Int", "node_b": "Int"},
      ret="Bool", fuel=True)
+
+
+spec(lean="is_bifurcate", module="AlgoCheckers", file="swcgeom/core/swc_utils/checker.py", func="is_bifurcate",
+     params=["topology", "exclude_root"],
+     vars={"topology": "(List Int) × (List Int)", "exclude_root": "Bool", "children": "DDict Int (List Int)", "idx": "Int", "pid": "Int",
+           "root": "List Int", "k": "Int", "v": "List Int"},
+     ret="Bool")
+
+
+spec(lean="is_sorted", module="AlgoCheckers", file="swcgeom/core/swc_utils/checker.py", func="is_sorted",
+     params=["topology"], vars={"topology": "(List Int) × (List Int)", "ids": "List Int", "pids": "List Int"}, ret="Bool")
 
 
 def regenerate(modules=None):
